@@ -195,53 +195,48 @@ Proof.
     destruct (negb b); [eauto|]. destruct (has_grease _); eauto.
 Qed.
 
-Definition ff_trigger (inf : info) : Prop :=
-  assert_presence_and_ordering ff_exts (i_exts inf) true = true /\ i_curves inf = [29; 23; 24; 25; 256].
-
-Lemma looks_like_firefox_panic_iff inf : looks_like_firefox inf = Panic <-> ff_trigger inf.
+Lemma check_at_len_ok req : forall l i, exists b, check_at_len req l i = Ok b.
 Proof.
-  unfold ff_trigger. split.
-  - intro H. unfold looks_like_firefox in H.
-    destruct (assert_presence_and_ordering ff_exts (i_exts inf) true) eqn:Ha; cbn [negb] in H; [|discriminate].
-    destruct (i_curves inf) as [|c0 [|c1 [|c2 [|c3 [|c4 [|c5 r]]]]]]; cbn in H; try discriminate;
-      repeat (match type of H with context [if ?b then _ else _] => destruct b eqn:? end; cbn in H);
-      try discriminate.
-    split; [reflexivity|].
-    repeat match goal with E : (_ =? _) = true |- _ => apply N.eqb_eq in E end.
-    congruence.
-  - intros [Ha Hc]. unfold looks_like_firefox. rewrite Ha, Hc. reflexivity.
+  induction req as [|r req IH]; intros l i; simpl; [eauto|].
+  destruct (length l <=? i)%nat eqn:H; [eauto|]. apply Nat.leb_gt in H.
+  ok_idx l i. destruct (v =? r); [|eauto]. apply IH.
 Qed.
 
-Lemma looks_like_firefox_ok inf : ~ ff_trigger inf -> exists b, looks_like_firefox inf = Ok b.
+Lemma looks_like_firefox_ok inf : exists b, looks_like_firefox inf = Ok b.
 Proof.
-  intro H. destruct (looks_like_firefox inf) eqn:E; [eauto|].
-  apply looks_like_firefox_panic_iff in E. contradiction.
+  unfold looks_like_firefox.
+  destruct (negb _); [eauto|].
+  destruct (length (i_curves inf) <? 4)%nat eqn:H4; [eauto|]. apply Nat.ltb_ge in H4.
+  destruct (check_at_ok [29; 23; 24; 25] (i_curves inf) 0%nat) as [b ->]; [cbn [length Nat.add]; lia|]. cbn [rbind].
+  destruct (negb b); [eauto|].
+  assert (Hx : exists b2, (if (4 <? length (i_curves inf))%nat then check_at_len [256; 257] (i_curves inf) 4 else Ok true) = Ok b2).
+  { destruct (4 <? length (i_curves inf))%nat; [apply check_at_len_ok|eauto]. }
+  destruct Hx as [b2 ->]. cbn [rbind].
+  destruct (negb b2); [eauto|]. destruct (has_grease _); eauto.
 Qed.
 
-Lemma looks_like_ok which inf : (which <> 0 \/ ~ ff_trigger inf) -> exists b, looks_like which inf = Ok b.
+Lemma looks_like_ok which inf : exists b, looks_like which inf = Ok b.
 Proof.
-  intro H. unfold looks_like.
+  unfold looks_like.
   destruct which as [|[[[p|p|]|[p|p|]|]|[[p|p|]|[p|p|]|]|]]; lazy beta iota;
     first [ apply looks_like_chrome_ok | apply looks_like_edge_ok | apply looks_like_safari_ok
-          | apply looks_like_tor_ok | (eexists; reflexivity) | idtac ].
-  destruct H as [H|H]; [congruence|now apply looks_like_firefox_ok].
+          | apply looks_like_tor_ok | apply looks_like_firefox_ok | (eexists; reflexivity) ].
 Qed.
 
-Lemma mitm_check_ok inf ua bc fc tv : ~ ff_trigger inf -> exists r, mitm_check inf ua bc fc tv = Ok r.
+Lemma mitm_check_ok inf ua bc fc tv : exists r, mitm_check inf ua bc fc tv = Ok r.
 Proof.
-  intro H. unfold mitm_check.
+  unfold mitm_check.
   destruct (looks_like_edge_ok inf) as [be Ee]. destruct (looks_like_chrome_ok inf) as [bc' Ec].
   destruct (looks_like_safari_ok inf) as [bs' Es]. destruct (looks_like_tor_ok inf) as [bt Et].
-  destruct (looks_like_firefox_ok inf H) as [bf Ef].
+  destruct (looks_like_firefox_ok inf) as [bf Ef].
   rewrite Ee, Ec, Es, Et, Ef. cbn [rbind].
   repeat match goal with |- context [if ?b then _ else _] => destruct b end; eauto.
 Qed.
 
+(* the hello that made the unrepaired looksLikeFirefox index Curves[5] of a 5-element list *)
 Definition ff_witness : info := mkInfo 771 [49195] ff_exts [0] [29; 23; 24; 25; 256] [0].
-Lemma looks_like_firefox_refuted : exists inf, looks_like_firefox inf = Panic.
-Proof. exists ff_witness. vm_compute. reflexivity. Qed.
-Lemma mitm_check_refuted : exists inf ua, mitm_check inf ua false false false = Panic.
-Proof. exists ff_witness, lit_Firefox_5. vm_compute. reflexivity. Qed.
+Lemma ff_witness_false : looks_like_firefox ff_witness = Ok false.
+Proof. vm_compute. reflexivity. Qed.
 
 (* ------------------------------------------------------------------------------------------ *)
 (* strings.Index bounds; getVersion is total                                                   *)
@@ -284,17 +279,53 @@ Proof.
 Qed.
 
 (* ------------------------------------------------------------------------------------------ *)
-(* clientHelloConn: total; recorded info under safe segmentations; refutation in general       *)
+(* clientHelloConn: total; what is recorded is a function of the delivered bytes only           *)
 (* ------------------------------------------------------------------------------------------ *)
+Lemma idx_nth (l : bytes) (i : nat) : (i < length l)%nat -> idx l i = Ok (nth i l 0).
+Proof.
+  intro H. unfold idx. rewrite (nth_error_nth' l 0 H). reflexivity.
+Qed.
+
+Lemma nth_firstn (l : bytes) (n i : nat) : (i < n)%nat -> nth i (firstn n l) 0 = nth i l 0.
+Proof.
+  revert l i. induction n as [|n IH]; intros l i H; [lia|].
+  destruct l as [|x l]; [now destruct i|]. destruct i as [|i]; [reflexivity|].
+  simpl. apply IH. lia.
+Qed.
+
+(* one Read, unfolded: the state only changes from "collecting" to "done" *)
+Lemma conn_read_collect pre seg :
+  let buf := pre ++ seg in
+  let len := N.to_nat (u16 (nth 3 buf 0) (nth 4 buf 0)) in
+  conn_read (mkConn false pre None) seg =
+    if ((length buf <? 5)%nat || (length buf <? 5 + len)%nat)%bool then Ok (mkConn false buf None)
+    else do inf <- parse_raw_client_hello (firstn len (skipn 5 buf));
+         Ok (mkConn true (skipn len (skipn 5 buf)) (Some inf)).
+Proof.
+  intros buf len. unfold conn_read. cbn [c_read_hello c_buf c_recorded]. fold buf.
+  destruct (length buf <? 5)%nat eqn:H5; [reflexivity|]. apply Nat.ltb_ge in H5. cbn [orb].
+  rewrite slice_ok by lia. cbn [rbind]. rewrite Nat.sub_0_r, skipn_O.
+  rewrite !idx_nth by (rewrite firstn_length; lia). cbn [rbind].
+  rewrite !nth_firstn by lia. fold len.
+  destruct (length buf <? 5 + len)%nat eqn:Hb; [reflexivity|]. apply Nat.ltb_ge in Hb.
+  rewrite slice_from_ok by lia. cbn [rbind].
+  assert (Hs : length (skipn 5 buf) = (length buf - 5)%nat) by apply skipn_length.
+  rewrite slice_ok by lia. cbn [rbind]. rewrite Nat.sub_0_r, skipn_O.
+  rewrite slice_from_ok by lia. reflexivity.
+Qed.
+
 Lemma conn_read_ok c seg : exists c', conn_read c seg = Ok c'.
 Proof.
-  unfold conn_read. destruct (c_read_hello c); [eauto|].
-  set (buf := c_buf c ++ seg).
+  destruct c as [rh pre rc]. destruct rh; [unfold conn_read; cbn [c_read_hello]; eauto|].
+  unfold conn_read. cbn [c_read_hello c_buf c_recorded].
+  set (buf := pre ++ seg).
   destruct (length buf <? 5)%nat eqn:H5; [eauto|]. apply Nat.ltb_ge in H5.
-  ok_slice buf 0%nat 5%nat. ok_from buf 5%nat.
+  ok_slice buf 0%nat 5%nat.
   assert (Hl : length (firstn (5 - 0) (skipn 0 buf)) = 5%nat) by (simpl skipn; rewrite firstn_length; lia).
   ok_idx (firstn (5 - 0) (skipn 0 buf)) 3%nat. ok_idx (firstn (5 - 0) (skipn 0 buf)) 4%nat.
-  destruct (length (skipn 5 buf) <? _)%nat eqn:Hb; [eauto|]. apply Nat.ltb_ge in Hb.
+  destruct (length buf <? _)%nat eqn:Hb; [eauto|]. apply Nat.ltb_ge in Hb.
+  ok_from buf 5%nat.
+  assert (Hs : length (skipn 5 buf) = (length buf - 5)%nat) by apply skipn_length.
   ok_slice (skipn 5 buf) 0%nat (N.to_nat (u16 v v0)). ok_from (skipn 5 buf) (N.to_nat (u16 v v0)).
   destruct (parse_ok (firstn (N.to_nat (u16 v v0) - 0) (skipn 0 (skipn 5 buf)))) as [i ->]. cbn [rbind]. eauto.
 Qed.
@@ -314,110 +345,108 @@ Qed.
 Lemma firstn_prefix {A} (p q : list A) : firstn (length p) (p ++ q) = p.
 Proof. rewrite firstn_app, Nat.sub_diag, firstn_all. simpl. apply app_nil_r. Qed.
 
-Opaque parse_raw_client_hello.
-Lemma seg_inv : forall segs pre a b c d e body rest inf,
-  (length pre < 5)%nat ->
-  pre ++ concat segs = [a; b; c; d; e] ++ body ++ rest ->
-  N.to_nat (u16 d e) = length body ->
-  parse_raw_client_hello body = Ok inf ->
-  forallb (safe_cut (length body)) (cuts_from (length pre) segs) = true ->
-  exists st, conn_run (mkConn false pre None) segs = Ok st /\ c_recorded st = Some inf.
+(* [recorded_of] looks at a complete record only: bytes after it do not matter *)
+Lemma recorded_of_app (w x : bytes) :
+  (5 <= length w)%nat -> (5 + N.to_nat (u16 (nth 3 w 0%N) (nth 4 w 0%N)) <= length w)%nat ->
+  recorded_of (w ++ x) = recorded_of w.
 Proof.
-  induction segs as [|seg r IH]; intros pre a b c d e body rest inf Hpre Hw Hlen Hp Hsafe.
-  - simpl in Hw. rewrite app_nil_r in Hw. subst pre. simpl in Hpre. lia.
-  - simpl in Hw, Hsafe. apply andb_true_iff in Hsafe as [Hc Hsafe].
-    unfold safe_cut in Hc. apply orb_true_iff in Hc as [Hc|Hc].
-    + apply Nat.ltb_lt in Hc.
-      simpl. unfold conn_read. cbn [c_read_hello c_buf c_recorded].
-      assert (Hlt : (length (pre ++ seg) <? 5)%nat = true) by (apply Nat.ltb_lt; rewrite app_length; lia).
-      rewrite Hlt. cbn [rbind].
-      apply IH with (a := a) (b := b) (c := c) (d := d) (e := e) (body := body) (rest := rest); auto.
-      * rewrite app_length. lia.
-      * rewrite <- app_assoc. exact Hw.
-      * rewrite app_length. exact Hsafe.
-    + apply Nat.leb_le in Hc.
-      set (n := length (pre ++ seg)).
-      assert (Hn : (5 + length body <= n)%nat) by (unfold n; rewrite app_length; lia).
-      assert (Hbuf : pre ++ seg = a :: b :: c :: d :: e :: body ++ firstn (n - 5 - length body) rest).
-      { rewrite <- (firstn_prefix (pre ++ seg) (concat r)). fold n.
-        rewrite <- app_assoc, Hw.
-        change ([a; b; c; d; e] ++ body ++ rest) with (a :: b :: c :: d :: e :: body ++ rest).
-        destruct n as [|[|[|[|[|n]]]]]; try lia. simpl. do 5 f_equal.
-        rewrite firstn_app. rewrite firstn_all2 by lia. f_equal. f_equal. lia. }
-      simpl. unfold conn_read. cbn [c_read_hello c_buf c_recorded]. rewrite Hbuf.
-      set (rest' := firstn (n - 5 - length body) rest).
-      assert (Hl0 : (length (a :: b :: c :: d :: e :: body ++ rest') <? 5)%nat = false)
-        by (apply Nat.ltb_ge; simpl; lia).
-      rewrite Hl0.
-      unfold slice, slice_from. cbn [length Nat.leb andb Nat.sub skipn firstn rbind idx nth_error].
-      rewrite Hlen.
-      assert (Hl1 : (length (body ++ rest') <? length body)%nat = false) by (apply Nat.ltb_ge; rewrite app_length; lia).
-      rewrite Hl1.
-      assert (Hl2 : (length body <=? length (body ++ rest'))%nat = true) by (apply Nat.leb_le; rewrite app_length; lia).
-      rewrite Hl2. cbn [rbind Nat.sub].
-      rewrite Nat.sub_0_r, firstn_prefix, Hp. cbn [rbind].
+  intros H5 Hl. unfold recorded_of.
+  rewrite !app_nth1 by lia. set (len := N.to_nat (u16 (nth 3 w 0) (nth 4 w 0))) in *.
+  rewrite app_length.
+  replace (length w + length x <? 5)%nat with false by (symmetry; apply Nat.ltb_ge; lia).
+  replace (length w <? 5)%nat with false by (symmetry; apply Nat.ltb_ge; lia).
+  replace (length w + length x <? 5 + len)%nat with false by (symmetry; apply Nat.ltb_ge; lia).
+  replace (length w <? 5 + len)%nat with false by (symmetry; apply Nat.ltb_ge; lia).
+  rewrite skipn_app. replace (5 - length w)%nat with 0%nat by lia. rewrite skipn_O.
+  rewrite firstn_app. rewrite skipn_length. replace (len - (length w - 5))%nat with 0%nat by lia.
+  cbn [firstn]. now rewrite app_nil_r.
+Qed.
+
+Opaque parse_raw_client_hello.
+(* invariant of the collecting state: the buffer is everything delivered so far and does not
+   yet hold a complete record *)
+Lemma conn_run_collect : forall segs pre,
+  recorded_of pre = None ->
+  ((length pre <? 5)%nat || (length pre <? 5 + N.to_nat (u16 (nth 3 pre 0%N) (nth 4 pre 0%N)))%nat)%bool = true ->
+  exists st, conn_run (mkConn false pre None) segs = Ok st /\ c_recorded st = recorded_of (pre ++ concat segs).
+Proof.
+  induction segs as [|seg r IH]; intros pre Hnone Hinc.
+  - simpl. rewrite app_nil_r. eexists. split; [reflexivity|]. now rewrite Hnone.
+  - cbn [conn_run concat]. rewrite conn_read_collect.
+    set (buf := pre ++ seg). set (len := N.to_nat (u16 (nth 3 buf 0) (nth 4 buf 0))).
+    destruct ((length buf <? 5)%nat || (length buf <? 5 + len)%nat)%bool eqn:Hc.
+    + cbn [rbind]. rewrite app_assoc. fold buf. apply IH; [|exact Hc].
+      unfold recorded_of. fold len. apply orb_true_iff in Hc as [Hc|Hc]; rewrite Hc; [reflexivity|].
+      now destruct (length buf <? 5)%nat.
+    + apply orb_false_iff in Hc as [H5 Hl]. apply Nat.ltb_ge in H5, Hl.
+      rewrite app_assoc. fold buf. rewrite recorded_of_app by (fold len; lia).
+      unfold recorded_of. fold len.
+      replace (length buf <? 5)%nat with false by (symmetry; apply Nat.ltb_ge; lia).
+      replace (length buf <? 5 + len)%nat with false by (symmetry; apply Nat.ltb_ge; lia).
+      destruct (parse_ok (firstn len (skipn 5 buf))) as [inf ->]. cbn [rbind].
       rewrite conn_run_done by reflexivity. eexists. split; reflexivity.
 Qed.
 Transparent parse_raw_client_hello.
 
-Lemma segmentation_partial hdr body rest segs :
-  length hdr = 5%nat ->
-  N.to_nat (u16 (nth 3 hdr 0) (nth 4 hdr 0)) = length body ->
-  concat segs = hdr ++ body ++ rest ->
-  forallb (safe_cut (length body)) (cuts segs) = true ->
-  exists st inf, conn_run conn0 segs = Ok st /\ parse_raw_client_hello body = Ok inf /\
-                 c_recorded st = Some inf.
-Proof.
-  intros Hh Hlen Hw Hsafe.
-  destruct hdr as [|a [|b [|c [|d [|e [|x hdr]]]]]]; try discriminate. simpl in Hlen.
-  destruct (parse_ok body) as [inf Hp].
-  destruct (seg_inv segs [] a b c d e body rest inf) as [st [H1 H2]]; simpl; auto; try lia.
-  exists st, inf. auto.
-Qed.
+(* what is recorded is a function of the delivered bytes *)
+Lemma conn_run_recorded segs :
+  exists st, conn_run conn0 segs = Ok st /\ c_recorded st = recorded_of (concat segs).
+Proof. apply (conn_run_collect segs []); reflexivity. Qed.
 
-Lemma one_read hdr body rest :
-  length hdr = 5%nat ->
-  N.to_nat (u16 (nth 3 hdr 0) (nth 4 hdr 0)) = length body ->
-  exists st inf, conn_run conn0 [hdr ++ body ++ rest] = Ok st /\ parse_raw_client_hello body = Ok inf /\
-                 c_recorded st = Some inf.
-Proof.
-  intros Hh Hlen. apply segmentation_partial with (hdr := hdr) (rest := rest); auto.
-  - simpl. now rewrite app_nil_r.
-  - unfold cuts. simpl. unfold safe_cut. rewrite !app_length, Hh.
-    replace (5 + length body <=? 5 + (length body + length rest))%nat with true
-      by (symmetry; apply Nat.leb_le; lia).
-    now rewrite orb_true_r.
-Qed.
-
-Lemma safe_segmentations_agree hdr body rest segs1 segs2 :
-  length hdr = 5%nat ->
-  N.to_nat (u16 (nth 3 hdr 0) (nth 4 hdr 0)) = length body ->
-  concat segs1 = hdr ++ body ++ rest -> concat segs2 = hdr ++ body ++ rest ->
-  forallb (safe_cut (length body)) (cuts segs1) = true ->
-  forallb (safe_cut (length body)) (cuts segs2) = true ->
+Lemma segmentation_independent segs1 segs2 :
+  concat segs1 = concat segs2 ->
   exists st1 st2, conn_run conn0 segs1 = Ok st1 /\ conn_run conn0 segs2 = Ok st2 /\
                   c_recorded st1 = c_recorded st2.
 Proof.
-  intros Hh Hlen H1 H2 S1 S2.
-  destruct (segmentation_partial hdr body rest segs1 Hh Hlen H1 S1) as [st1 [i1 [A1 [B1 C1]]]].
-  destruct (segmentation_partial hdr body rest segs2 Hh Hlen H2 S2) as [st2 [i2 [A2 [B2 C2]]]].
+  intro H. destruct (conn_run_recorded segs1) as [st1 [A1 B1]]. destruct (conn_run_recorded segs2) as [st2 [A2 B2]].
   exists st1, st2. repeat split; auto. congruence.
+Qed.
+
+Lemma recorded_of_record hdr body rest :
+  length hdr = 5%nat ->
+  N.to_nat (u16 (nth 3 hdr 0) (nth 4 hdr 0)) = length body ->
+  recorded_of (hdr ++ body ++ rest) = res_oinfo (parse_raw_client_hello body).
+Proof.
+  intros Hh Hlen.
+  destruct hdr as [|a [|b [|c [|d [|e [|x hdr]]]]]]; try discriminate. simpl in Hlen.
+  unfold recorded_of. cbn [app nth length]. rewrite Hlen. rewrite app_length.
+  replace (S (S (S (S (S (length body + length rest))))) <? 5)%nat with false by (symmetry; apply Nat.ltb_ge; lia).
+  replace (S (S (S (S (S (length body + length rest))))) <? 5 + length body)%nat with false by (symmetry; apply Nat.ltb_ge; lia).
+  cbn [skipn]. rewrite firstn_prefix. reflexivity.
+Qed.
+
+Lemma segmentation_full hdr body rest segs :
+  length hdr = 5%nat ->
+  N.to_nat (u16 (nth 3 hdr 0) (nth 4 hdr 0)) = length body ->
+  concat segs = hdr ++ body ++ rest ->
+  exists st inf, conn_run conn0 segs = Ok st /\ parse_raw_client_hello body = Ok inf /\
+                 c_recorded st = Some inf.
+Proof.
+  intros Hh Hlen Hw. destruct (conn_run_recorded segs) as [st [A B]].
+  destruct (parse_ok body) as [inf Hp].
+  exists st, inf. repeat split; auto.
+  rewrite B, Hw, (recorded_of_record hdr body rest Hh Hlen), Hp. reflexivity.
+Qed.
+
+(* before the record is complete nothing is recorded *)
+Lemma segmentation_incomplete hdr body segs k :
+  length hdr = 5%nat ->
+  N.to_nat (u16 (nth 3 hdr 0) (nth 4 hdr 0)) = length body ->
+  (k < 5 + length body)%nat ->
+  concat segs = firstn k (hdr ++ body) ->
+  exists st, conn_run conn0 segs = Ok st /\ c_recorded st = None.
+Proof.
+  intros Hh Hlen Hk Hw. destruct (conn_run_recorded segs) as [st [A B]].
+  exists st. split; [exact A|]. rewrite B, Hw. unfold recorded_of.
+  assert (Hfl : length (firstn k (hdr ++ body)) = k) by (rewrite firstn_length, app_length; lia).
+  rewrite Hfl.
+  destruct (k <? 5)%nat eqn:H5; [reflexivity|]. apply Nat.ltb_ge in H5.
+  rewrite !nth_firstn by lia. rewrite !app_nth1 by lia. rewrite Hlen.
+  replace (k <? 5 + length body)%nat with true by (symmetry; apply Nat.ltb_lt; lia). reflexivity.
 Qed.
 
 Definition seg_hdr : bytes := [22; 3; 1; 0; 43].
 Definition seg_body : bytes := [1; 0; 0; 39; 3; 3] ++ repeat 0 32 ++ [0; 0; 0; 1; 0].
-Lemma segmentation_refuted :
-  exists hdr body segs,
-    length hdr = 5%nat /\ N.to_nat (u16 (nth 3 hdr 0) (nth 4 hdr 0)) = length body /\
-    concat segs = hdr ++ body /\
-    exists st inf, conn_run conn0 segs = Ok st /\ parse_raw_client_hello body = Ok inf /\
-                   c_recorded st <> Some inf.
-Proof.
-  exists seg_hdr, seg_body, [seg_hdr ++ firstn 5 seg_body; skipn 5 seg_body].
-  repeat split; try (vm_compute; reflexivity).
-  eexists. eexists. split; [vm_compute; reflexivity|]. split; [vm_compute; reflexivity|].
-  vm_compute. discriminate.
-Qed.
 
 (* ------------------------------------------------------------------------------------------ *)
 (* Link header parser                                                                          *)
@@ -435,53 +464,44 @@ Qed.
 Lemma index_of_hit c s k : index_of [c] s = Some k -> nth_error s k = Some c.
 Proof. intro H. apply index_from_hit in H as [_ H]. now rewrite Nat.sub_0_r in H. Qed.
 
-Lemma parse_link_panic_iff link : parse_link link = Panic <-> gt_before_lt link = true.
+Lemma parse_link_ok link : exists r, parse_link link = Ok r.
 Proof.
-  unfold parse_link, gt_before_lt.
-  destruct (index_of [LT] link) as [li|] eqn:E1; [|split; discriminate].
-  destruct (index_of [GT] link) as [ri|] eqn:E2; [|split; discriminate].
+  unfold parse_link.
+  destruct (index_of [LT] link) as [li|] eqn:E1; [|eauto].
+  destruct (index_of [GT] link) as [ri|] eqn:E2; [|eauto].
   pose proof (index_of_hit _ _ _ E1) as N1. pose proof (index_of_hit _ _ _ E2) as N2.
   apply index_of_bound in E2. simpl in E2.
-  destruct (ri <? li)%nat eqn:Hlt.
-  - apply Nat.ltb_lt in Hlt. rewrite slice_panic by lia. split; reflexivity.
-  - apply Nat.ltb_ge in Hlt.
-    assert (li <> ri) by (intros ->; rewrite N1 in N2; discriminate).
-    ok_slice link (li + 1)%nat ri. ok_from link (ri + 1)%nat. split; discriminate.
+  destruct (ri <? li)%nat eqn:Hlt; [eauto|].
+  apply Nat.ltb_ge in Hlt.
+  assert (li <> ri) by (intros ->; rewrite N1 in N2; discriminate).
+  ok_slice link (li + 1)%nat ri. ok_from link (ri + 1)%nat. eauto.
 Qed.
 
-Lemma parse_links_panic_iff links : parse_links links = Panic <-> existsb gt_before_lt links = true.
+Lemma parse_links_ok links : exists r, parse_links links = Ok r.
 Proof.
-  induction links as [|l r IH]; simpl; [split; discriminate|].
-  destruct (parse_link l) as [x|] eqn:E.
-  - assert (Hl : gt_before_lt l = false).
-    { destruct (gt_before_lt l) eqn:G; [|reflexivity]. apply parse_link_panic_iff in G. congruence. }
-    rewrite Hl. simpl. destruct (parse_links r) as [xs|]; simpl.
-    + split; [discriminate|]. intro H. apply IH in H. discriminate.
-    + split; [intros _; now apply IH|reflexivity].
-  - apply parse_link_panic_iff in E. rewrite E. simpl. split; reflexivity.
+  induction links as [|l r IH]; simpl; [eauto|].
+  destruct (parse_link_ok l) as [x ->]. destruct IH as [xs ->]. cbn [rbind]. eauto.
 Qed.
 
-Lemma parse_link_header_panic_iff h :
-  parse_link_header h = Panic <-> existsb gt_before_lt (split COMMA h) = true.
+Lemma parse_link_header_ok h : exists r, parse_link_header h = Ok r.
+Proof. unfold parse_link_header. destruct h; [eauto|apply parse_links_ok]. Qed.
+
+Lemma serve_preload_links_ok values : forall n failat, exists l, serve_preload_links values n failat = Ok l.
 Proof.
-  unfold parse_link_header. destruct h as [|c h]; [vm_compute; split; discriminate|].
-  apply parse_links_panic_iff.
+  induction values as [|v r IH]; intros n failat; simpl; [eauto|].
+  destruct (parse_link_header_ok v) as [rs ->]. cbn [rbind].
+  destruct (push_resources rs n failat) as [[p n'] st].
+  destruct st; [eauto|].
+  destruct (IH n' failat) as [q ->]. cbn [rbind]. eauto.
 Qed.
 
-Lemma serve_preload_links_ok values : forall n failat,
-  (forall v, In v values -> existsb gt_before_lt (split COMMA v) = false) ->
-  exists l, serve_preload_links values n failat = Ok l.
+(* a piece whose '>' precedes its first '<' (the former panic class) is skipped *)
+Lemma parse_link_skips link : gt_before_lt link = true -> parse_link link = Ok None.
 Proof.
-  induction values as [|v r IH]; intros n failat H; simpl; [eauto|].
-  destruct (parse_link_header v) as [rs|] eqn:E.
-  - cbn [rbind]. destruct (push_resources rs n failat) as [[p n'] st].
-    destruct st; [eauto|].
-    destruct (IH n' failat) as [q ->]; [intros w Hw; apply H; now right|]. cbn [rbind]. eauto.
-  - apply parse_link_header_panic_iff in E. rewrite H in E by now left. discriminate.
+  unfold parse_link, gt_before_lt.
+  destruct (index_of [LT] link); [|discriminate]. destruct (index_of [GT] link); [|discriminate].
+  intros ->. reflexivity.
 Qed.
-
-Lemma parse_link_header_refuted : exists h, parse_link_header h = Panic.
-Proof. exists [GT; LT]. vm_compute. reflexivity. Qed.
 
 (* ------------------------------------------------------------------------------------------ *)
 (* FastCGI: record.read / streamReader are total; the other fastcgi entry points               *)
@@ -526,57 +546,69 @@ Qed.
 Lemma stream_read_all_ok s : exists r, stream_read_all s = Ok r.
 Proof. apply stream_read_ok. lia. Qed.
 
-Lemma write_pair_panic_iff klen vlen : (0 <= klen)%Z -> (0 <= vlen)%Z ->
-  (write_pair_len klen vlen = Panic <-> (65492 < klen)%Z).
+Lemma enc_pair_len_bounds klen vlen :
+  (2 + klen + vlen <= enc_pair_len klen vlen <= 8 + klen + vlen)%Z.
+Proof. unfold enc_pair_len, size_len. destruct (127 <? klen)%Z, (127 <? vlen)%Z; lia. Qed.
+
+Lemma write_pair_ok klen vlen : (0 <= klen)%Z -> (0 <= vlen)%Z -> exists l, write_pair_len klen vlen = Ok l.
 Proof.
-  intros Hk Hv. unfold write_pair_len.
-  destruct (65500 <? 8 + klen + vlen)%Z eqn:E1.
-  - destruct ((65500 - 8 - klen <? 0)%Z || (vlen <? 65500 - 8 - klen)%Z) eqn:E2.
-    + split; [intros _; lia|reflexivity].
-    + split; [discriminate|lia].
-  - split; [discriminate|lia].
+  intros Hk Hv. unfold write_pair_len. pose proof (enc_pair_len_bounds klen vlen) as B.
+  destruct (65500 <? enc_pair_len klen vlen)%Z eqn:E1; [|eauto].
+  destruct (65500 - 8 - klen <? 0)%Z eqn:E0.
+  - replace ((0 <? 0)%Z || (vlen <? 0)%Z) with false by (symmetry; apply orb_false_iff; split; apply Z.ltb_ge; lia).
+    eauto.
+  - replace ((65500 - 8 - klen <? 0)%Z || (vlen <? 65500 - 8 - klen)%Z) with false
+      by (symmetry; apply orb_false_iff; split; apply Z.ltb_ge; lia).
+    eauto.
 Qed.
 
 Lemma write_pair_spec klen vlen l : (0 <= klen)%Z -> (0 <= vlen)%Z ->
   write_pair_len klen vlen = Ok l ->
-  (0 <= l <= vlen)%Z /\ (8 + klen + l <= 65500)%Z /\ ((8 + klen + vlen <= 65500)%Z -> l = vlen).
+  (0 <= l <= vlen)%Z /\
+  ((enc_pair_len klen vlen <= 65500)%Z -> l = vlen) /\
+  ((65500 < enc_pair_len klen vlen)%Z -> (8 + klen + l = 65500)%Z \/ ((65492 < klen)%Z /\ l = 0%Z)).
 Proof.
-  intros Hk Hv. unfold write_pair_len.
-  destruct (65500 <? 8 + klen + vlen)%Z eqn:E1.
-  - destruct ((65500 - 8 - klen <? 0)%Z || (vlen <? 65500 - 8 - klen)%Z) eqn:E2; [discriminate|].
-    apply orb_false_iff in E2 as [A B]. apply Z.ltb_ge in A, B. apply Z.ltb_lt in E1.
-    intro H. assert (El : l = (65500 - 8 - klen)%Z) by congruence. lia.
+  intros Hk Hv. unfold write_pair_len. pose proof (enc_pair_len_bounds klen vlen) as B.
+  destruct (65500 <? enc_pair_len klen vlen)%Z eqn:E1.
+  - destruct (65500 - 8 - klen <? 0)%Z eqn:E0.
+    + destruct ((0 <? 0)%Z || (vlen <? 0)%Z); [discriminate|].
+      intro H. assert (El : l = 0%Z) by congruence. lia.
+    + destruct ((65500 - 8 - klen <? 0)%Z || (vlen <? 65500 - 8 - klen)%Z) eqn:E2; [discriminate|].
+      apply orb_false_iff in E2 as [A B']. apply Z.ltb_ge in A, B'. apply Z.ltb_lt in E1.
+      intro H. assert (El : l = (65500 - 8 - klen)%Z) by congruence. lia.
   - apply Z.ltb_ge in E1. intro H. assert (El : l = vlen) by congruence. lia.
 Qed.
 
-Lemma fcgi_status_panic_iff v :
-  fcgi_status v = Panic <->
-  v <> [] /\ exists c, atoi (match index_of [32] v with Some i => firstn i v | None => v end) = Some c /\
-                       (c < 100 \/ 999 < c)%Z.
+Lemma fcgi_status_code_range v c : fcgi_status_code v = Some c -> (100 <= c <= 999)%Z.
 Proof.
-  unfold fcgi_status. destruct v as [|x v]; [split; [discriminate|intros [H _]; congruence]|].
-  set (tok := match index_of [32] (x :: v) with Some i => firstn i (x :: v) | None => x :: v end).
-  destruct (atoi tok) as [c|] eqn:Ea.
-  - destruct ((c <? 100)%Z || (999 <? c)%Z) eqn:E.
-    + split; [intros _|reflexivity]. split; [discriminate|]. exists c. split; [exact Ea|lia].
-    + split; [discriminate|]. intros [_ [c' [H1 H2]]]. change (atoi tok = Some c') in H1.
-      assert (c' = c) by congruence. subst c'. lia.
-  - split; [discriminate|]. intros [_ [c' [H1 _]]]. change (atoi tok = Some c') in H1. congruence.
+  unfold fcgi_status_code. destruct v as [|x v]; [intro H; injection H as <-; lia|].
+  destruct (atoi _) as [c'|]; [|discriminate].
+  destruct ((c' <? 100)%Z || (999 <? c')%Z) eqn:E; [discriminate|].
+  intro H. injection H as <-. lia.
 Qed.
 
-Lemma fcgi_status_refuted : exists v, fcgi_status v = Panic.
-Proof. exists [57; 57]. vm_compute. reflexivity. Qed.
-
-Lemma fcgi_path_gate_panic_iff fpath ex sfx :
-  fcgi_path_gate fpath ex sfx = Panic <-> (ex = true /\ fpath = []).
+Lemma fcgi_status_ok v : exists r, fcgi_status v = Ok r.
 Proof.
-  unfold fcgi_path_gate. destruct ex; cbn [negb].
-  - destruct fpath as [|c r]; [split; auto|].
-    cbn [length]. destruct (idx_ok (c :: r) (length r)) as [v Hv]; [simpl; lia|].
-    rewrite Hv. cbn [rbind]. split; [discriminate|]. intros [_ H]. discriminate.
-  - split; [discriminate|]. intros [H _]. discriminate.
+  unfold fcgi_status. destruct (fcgi_status_code v) as [c|] eqn:E; [|eauto].
+  apply fcgi_status_code_range in E. unfold write_header.
+  replace ((c <? 100)%Z || (999 <? c)%Z) with false by (symmetry; apply orb_false_iff; split; apply Z.ltb_ge; lia).
+  cbn [rbind]. eauto.
 Qed.
 
+Lemma fcgi_status_written v c : fcgi_status v = Ok (Some c) -> (100 <= c <= 999)%Z.
+Proof.
+  unfold fcgi_status. destruct (fcgi_status_code v) as [c'|] eqn:E; [|discriminate].
+  apply fcgi_status_code_range in E. unfold write_header.
+  destruct ((c' <? 100)%Z || (999 <? c')%Z); cbn [rbind]; [discriminate|].
+  intro H. injection H as <-. exact E.
+Qed.
+
+(* the former panic witness "Status: 99" is now answered with 502 *)
+Lemma fcgi_status_99 : fcgi_status [57; 57] = Ok None.
+Proof. vm_compute. reflexivity. Qed.
+
+Lemma fcgi_path_gate_ok fpath ex sfx : exists b, fcgi_path_gate fpath ex sfx = Ok b.
+Proof. unfold fcgi_path_gate. destruct (negb ex); eauto. Qed.
 
 (* ------------------------------------------------------------------------------------------ *)
 (* replacer: Replace's scanning loops and getSubstitution's indexing are total                 *)
@@ -825,8 +857,6 @@ Qed.
 (* ------------------------------------------------------------------------------------------ *)
 (* statements in the form used by C19_Props.v                                                  *)
 (* ------------------------------------------------------------------------------------------ *)
-Definition seg_body_tail : bytes := 43 :: seg_body ++ [7; 7].
-
 Lemma chrome_edge_safari_tor_no_panic inf :
   looks_like_chrome inf <> Panic /\ looks_like_edge inf <> Panic /\
   looks_like_safari inf <> Panic /\ looks_like_tor inf <> Panic.
@@ -836,11 +866,11 @@ Proof.
   repeat split; discriminate.
 Qed.
 
-Lemma mitm_check_no_panic_partial inf ua bc fc tv :
-  ~ (assert_presence_and_ordering ff_exts (i_exts inf) true = true /\
-     i_curves inf = [29; 23; 24; 25; 256]) ->
-  mitm_check inf ua bc fc tv <> Panic.
-Proof. intro H. destruct (mitm_check_ok inf ua bc fc tv H) as [r ->]. discriminate. Qed.
+Lemma looks_like_firefox_no_panic inf : looks_like_firefox inf <> Panic.
+Proof. destruct (looks_like_firefox_ok inf) as [b ->]. discriminate. Qed.
+
+Lemma mitm_check_no_panic inf ua bc fc tv : mitm_check inf ua bc fc tv <> Panic.
+Proof. destruct (mitm_check_ok inf ua bc fc tv) as [r ->]. discriminate. Qed.
 
 Lemma get_version_no_panic ua name : get_version_str ua name <> Panic.
 Proof. destruct (get_version_ok ua name) as [r ->]. discriminate. Qed.
@@ -848,10 +878,11 @@ Proof. destruct (get_version_ok ua name) as [r ->]. discriminate. Qed.
 Lemma conn_no_panic c segs : conn_run c segs <> Panic.
 Proof. destruct (conn_run_ok segs c) as [c' ->]. discriminate. Qed.
 
-Lemma serve_preload_links_no_panic values n failat :
-  (forall v, In v values -> existsb gt_before_lt (split COMMA v) = false) ->
-  serve_preload_links values n failat <> Panic.
-Proof. intro H. destruct (serve_preload_links_ok values n failat H) as [l ->]. discriminate. Qed.
+Lemma parse_link_header_no_panic h : parse_link_header h <> Panic.
+Proof. destruct (parse_link_header_ok h) as [r ->]. discriminate. Qed.
+
+Lemma serve_preload_links_no_panic values n failat : serve_preload_links values n failat <> Panic.
+Proof. destruct (serve_preload_links_ok values n failat) as [l ->]. discriminate. Qed.
 
 Lemma record_read_no_panic s : record_read s <> Panic.
 Proof. destruct (record_read_ok s) as [r [-> _]]. discriminate. Qed.
@@ -859,8 +890,11 @@ Proof. destruct (record_read_ok s) as [r [-> _]]. discriminate. Qed.
 Lemma stream_read_no_panic s : stream_read_all s <> Panic.
 Proof. destruct (stream_read_all_ok s) as [r ->]. discriminate. Qed.
 
-Lemma write_pair_refuted : exists klen vlen, (0 <= klen)%Z /\ (0 <= vlen)%Z /\ write_pair_len klen vlen = Panic.
-Proof. exists 65493%Z, 0%Z. repeat split; try discriminate. Qed.
+Lemma write_pair_no_panic klen vlen : (0 <= klen)%Z -> (0 <= vlen)%Z -> write_pair_len klen vlen <> Panic.
+Proof. intros Hk Hv. destruct (write_pair_ok klen vlen Hk Hv) as [l ->]. discriminate. Qed.
 
-Lemma fcgi_path_gate_refuted : exists p, fcgi_path_gate (fcgi_fpath p) true true = Panic.
-Proof. exists [32; 46]. reflexivity. Qed.
+Lemma fcgi_status_no_panic v : fcgi_status v <> Panic.
+Proof. destruct (fcgi_status_ok v) as [r ->]. discriminate. Qed.
+
+Lemma fcgi_path_gate_no_panic fpath ex sfx : fcgi_path_gate fpath ex sfx <> Panic.
+Proof. destruct (fcgi_path_gate_ok fpath ex sfx) as [b ->]. discriminate. Qed.
